@@ -111,7 +111,7 @@ static void build_workloads(std::vector<Work> &ws, const vf::Args &args)
     for (int kind = 0; kind < 3; kind++)
         for (int d = 0; d <= dmax; d++)
             for (int ex = 0; ex <= (kind == 2 ? 2 : 0); ex++)
-                for (uint64_t ncols : {1ULL, 3ULL, 8ULL})
+                for (uint64_t ncols : {1ULL, 3ULL, 5ULL, 8ULL})
                     for (uint64_t nphase : {1ULL, 2ULL, 3ULL, 4ULL})
                         for (uint64_t nblock : {1ULL, 2ULL, 3ULL})
                             for (int buffer = 0; buffer < 2; buffer++)
@@ -123,6 +123,15 @@ static void build_workloads(std::vector<Work> &ws, const vf::Args &args)
                                     w.kind = kind; w.d = d; w.e = d + ex; w.S = d + (int)(h / 7 % 2); w.ncols = ncols; w.nphase = nphase; w.nblock = nblock; w.buffer = buffer; w.alias = alias;
                                     ws.push_back(w);
                                 }
+    // a few transforms with more than 1024 rows per member (chunked schedules, per-member state)
+    for (int kind = 0; kind < 3; kind++)
+        for (int d : {12, 13})
+            for (uint64_t ncols : {1ULL, 5ULL})
+            {
+                Work w{};
+                w.kind = kind; w.d = d; w.e = d + (kind == 2 ? 1 : 0); w.S = d; w.ncols = ncols; w.nphase = d == 12 ? 3 : 2; w.nblock = ncols == 5 ? 2 : 1; w.buffer = 0; w.alias = (d + (int)ncols) % 2;
+                ws.push_back(w);
+            }
 #ifdef __AVX512__
     const int builders[] = {3, 4, 5, 6, 7, 8, 9, 10};
 #else
@@ -182,6 +191,7 @@ int main(int argc, char **argv)
                 int nperm = 1;
                 if (mode == "seq") { nperm = team == 1 ? 1 : (team == 2 ? 2 : (team == 3 ? 6 : (team == 4 ? 24 : (int)args.getu("perms", args.thorough() ? 12 : 4)))); }
                 if (mode == "threads") nperm = (int)args.getu("repeats", args.thorough() ? 3 : 1) + (team > 1 ? 1 : 0);
+                if (w.kind <= 2 && w.d >= 12 && nperm > 3 && !args.thorough()) nperm = 3; // big transforms: three orders per team in the quick tier
                 for (int p = 0; p < nperm; p++)
                 {
                     if (mode == "seq" && verif_omp_set_perm_index)
